@@ -67,7 +67,7 @@ func verifC11Stubs() *verifC11Estimator {
 // min <= p50 <= p90 <= p95 <= p99 <= max (all equal when all latencies are).
 // Latencies 0 <= l < 2^53 ns (104 days; exactly representable as doubles).
 //
-//verif:harness solver=cvc5 timeout=60000 unwind=16 param.n=1..2 thorough.param.n=1..3 thorough.deadline=3000 replay=none
+//verif:harness solver=cvc5 timeout=60000 unwind=16 param.n=1..2 thorough.deadline=3000 replay=none
 func verif_harness_C11_percentiles() {
 	if !verif_is_symbolic_run() {
 		return
